@@ -63,13 +63,13 @@ def split_ticks(events):
     return pre, ticks
 
 
-def check(config, events, live=None, nticks=None, identity=True):
+def check(config, events, live=None, nticks=None, identity=True, excused=None):
     """-> (violations [(prop, rule, disc, detail)], stats dict).
     live: {ruleset name: [set(cgroup rel) per tick]} for ruleset-cgroup rulesets.
     identity=False: the object-identity clauses of C11 are not evaluated (and cannot end the judging of an instance), so that the
     pause / resume clauses of C05 / C06 are still judged per matching cgroup when a build swaps the objects behind its back."""
     V = []
-    stats = {"chain_starts": 0, "no_fire_ticks": 0, "resumes": 0, "stops": 0, "pause_blocked": 0,
+    stats = {"excused_skips": 0, "chain_starts": 0, "no_fire_ticks": 0, "resumes": 0, "stops": 0, "pause_blocked": 0,
              "async": 0, "det_runs": 0, "act_runs": 0, "inst_created": 0, "inst_dropped": 0,
              "ticks": 0, "boundary_ticks": 0}
     rulesets = [RS(r) for r in config.get("rulesets", [])]
@@ -122,7 +122,14 @@ def check(config, events, live=None, nticks=None, identity=True):
                 for e in rruns:
                     if e.get("rcg") not in seen:
                         seen.append(e.get("rcg"))
-                if keys is not None and sorted(x for x in seen if x is not None) != keys:
+                # excused: {ruleset: [set per tick]} - cgroups that exist and match, but that oomd could not inspect on that tick
+                # (opening the directory failed with something that says nothing about the cgroup). Whether they are evaluated
+                # on that tick is not judged; their instance, with all its state, has to be there afterwards.
+                skipped = set()
+                if excused and r.name in excused and keys is not None and ti < len(excused[r.name]):
+                    skipped = {k for k in keys if k in excused[r.name][ti] and k not in seen}
+                    stats["excused_skips"] += len(skipped)
+                if keys is not None and sorted(x for x in seen if x is not None) != [k for k in keys if k not in skipped]:
                     bad("C11", "live-set", "", "tick %d ruleset %s: evaluated %s, matching cgroups %s" % (ti, r.name, seen, keys))
                     continue
                 if keys is None:
@@ -142,6 +149,8 @@ def check(config, events, live=None, nticks=None, identity=True):
                         del states[(sri, cg)]
                         stats["inst_dropped"] += 1
             for cg in keys:
+                if r.cgroup is not None and cg in skipped:
+                    continue
                 st = states.get((ri, cg))
                 fresh = st is None
                 if fresh:
